@@ -55,7 +55,7 @@ from .exceptions import (
 )
 from .internals.constants import DEFAULT_TASK_GROUP, PYTHON_BEFORE_39
 from .internals.group_register import TaskGroupRegister
-from .internals.helpers import execute_optional, star_function
+from .internals.helpers import execute_optional, get_func_name, star_function
 
 if TYPE_CHECKING:
     from .internals.types import (
@@ -793,7 +793,7 @@ class TaskPool(BaseTaskPool):
             (With `name` being the name of the `coroutine_function` and
             `idx` being an incrementing index.)
         """
-        base_name = f"{prefix}-{coroutine_function.__name__}-group"
+        base_name = f"{prefix}-{get_func_name(coroutine_function)}-group"
         i = 0
         while True:
             name = f"{base_name}-{i}"
@@ -848,7 +848,7 @@ class TaskPool(BaseTaskPool):
                     "create coroutine: %s(*%s, **%s)",
                     str(e.__class__.__name__),
                     group_name,
-                    func.__name__,
+                    get_func_name(func),
                     repr(args),
                     repr(kwargs),
                 )
@@ -1076,7 +1076,7 @@ class TaskPool(BaseTaskPool):
                     "create coroutine: %s(%s%s)",
                     str(e.__class__.__name__),
                     group_name,
-                    func.__name__,
+                    get_func_name(func),
                     "*" * arg_stars,
                     str(next_arg),
                 )
@@ -1464,7 +1464,7 @@ class SimpleTaskPool(BaseTaskPool):
     @property
     def func_name(self) -> str:
         """Name of the coroutine function used in the pool."""
-        return self._func.__name__
+        return get_func_name(self._func)
 
     async def _start_num(self, num: int, group_name: str) -> None:
         """Starts `num` new tasks in group `group_name`."""
@@ -1478,7 +1478,7 @@ class SimpleTaskPool(BaseTaskPool):
                     "create coroutine: %s(*%s, **%s)",
                     str(e.__class__.__name__),
                     str(self),
-                    self._func.__name__,
+                    get_func_name(self._func),
                     repr(self._args),
                     repr(self._kwargs),
                 )
